@@ -459,10 +459,15 @@ func (cc *connectUnaryClientConn) validateResponse(response *http.Response) *Err
 			mergeHeaders(serverErr.meta, cc.responseTrailer)
 			return &serverErr
 		}
-		return NewError(
+		// No usable error in the body - but the headers have arrived, and the
+		// metadata of a unary Connect error travels in them.
+		statusErr := NewError(
 			connectHTTPToCode(response.StatusCode),
 			errors.New(response.Status),
 		)
+		statusErr.meta = cc.responseHeader.Clone()
+		mergeHeaders(statusErr.meta, cc.responseTrailer)
+		return statusErr
 	}
 	cc.unmarshaler.compressionPool = cc.compressionPools.Get(compression)
 	return nil
